@@ -42,6 +42,10 @@ CHECKS = {
    "exhaustive enumeration of every single-bit / single-component alteration of (message, witness, key, commitment) per scheme, plus explicit-state search over homomorphic operation sequences, against from-scratch recomputation in math/big",
    "hashcom: every bit of message (up to 1 KiB, 32 KiB thorough), witness, key and commitment and every length change; Pedersen (k256, BLS G1), integer commitments, Paillier- and ElGamal-based commitments: every enumerated algebraic/bit change of each component; Open must accept exactly the untouched tuple (re-encodings of the same value are the same value; degenerate m=0/r=0 key changes are counted, not demanded); trapdoor equivocation for every message pair opens under the exported key; BFS over {Op, OpInv, ScalarOp, ReRandomise, Shift} to depth 3 (5) with model (m,w): combined commitment equals the one recomputed from scratch; transcript-extracted keys equal iff histories equal (all pairs of 20 histories).",
    "Trusts math/big reference curve/integer arithmetic and x/crypto BLAKE2b; keys for intcom/Paillier are built from harness primes (the library's samplers share a reader across goroutines); computational binding is not enumerable.", "DESIGN §5 C18"),
+ "C13": ("CT", "exploration",
+   "exhaustive enumeration of element alphabets x formats (round trip, injectivity) and of decoder inputs (every tag/flag combination x coordinate alphabet, byte sweeps, every length) judged by format-definition parsers over the math/big curve model",
+   "For k256, p256, edwards25519 (+prime subgroup), curve25519 (+prime subgroup), pallas, vesta, BLS12-381 G1/G2/GT and all 10 prime fields + Fp2: every alphabet element (identity in two forms, generator multiples, points with x=0, small-order and out-of-subgroup points) round-trips through every format (compressed, uncompressed, Bytes, MarshalBinary, CBOR, affine, affine-x) and encoders are injective; every decoder input over {tag byte or all 8 BLS flag combinations} x coordinate alphabet (0,1,2,p-1,p,p+1,2^k-1, coordinates without partner, x=0/small-order/out-of-subgroup coordinates, unreduced aliases), first/last-byte sweeps and every length 0..2*size+1: an ACCEPTED input must denote a point on the reference curve (in the prime subgroup where the type promises it) / the field element = bytes mod q; wrong lengths, wrong flags, off-curve coordinates must be rejected; no panic.",
+   "Trusts math/big, ref/curve and the format parsers written from the standards (SEC1, RFC 8032/7748, zcash pasta and BLS12-381 serialisation) and a math/big Fp12 tower for GT; uniqueness of accepted encodings is not demanded (the library reduces unreduced coordinates by design).", "DESIGN §5 C13"),
 }
 NOT_YET = {}
 for i in range(1, 21):
